@@ -104,6 +104,9 @@ func kindOf(i int) string {
 	case x < 97:
 		return "prod"
 	}
+	if i >= 20000 {
+		return "state" // the alias family is a fixed-size probe (its finding is order dependent, not rare)
+	}
 	return "alias"
 }
 
@@ -149,7 +152,7 @@ func runDL(c *kit.Ctx) {
 		if !c.Mine(i, id) {
 			continue
 		}
-		runDLCase(c, id, kind)
+		runDLCase(c, id, kind, kind == "trie" && i%7 == 0) // every 7th: a trie beyond the 100 KB periodic-commit threshold
 	}
 	finishChild(c)
 }
